@@ -117,6 +117,7 @@ func (s Segment) Recover(params index.Params) error {
 	if err := os.Remove(restorePath); err != nil && !errors.Is(err, os.ErrNotExist) {
 		return fmt.Errorf("restore remove stale temp: %w", err)
 	}
+	vhook.FS("remove", restorePath, 0)
 	restore, err := message.OpenWriter(restorePath, s.Offset, log.Version())
 	if err != nil {
 		return err
